@@ -23,7 +23,7 @@ PROP = dict(
     harnesses=[
         H(NH, "c10", "c10_timer_v4", "NTPv4 poll: exponent on the wire = max(desire, server minimum), within [min, max(cfg max, server minimum)], timer in [1.01, 1.05] x 2^exponent s (+-1 ns)", timeout=600),
         H(NH, "c10", "c10_timer_upgrade", "same, NTPv4 source that is asking for the NTPv5 upgrade", timeout=600),
-        H(NH, "c10", "c10_timer_server_requested", "server-requested minimum 2^18..2^127 s (what an NTPv5 server may ask for): exponent = the request, timer not earlier than 1.01 x min(interval, 2^31 s)", timeout=600),
+        H(NH, "c10", "c10_timer_server_requested", "NTPv4 source (the minimum is set through a hook; NTPv5 request path: see outside) with a server-requested minimum 2^18..2^127 s (the range only an NTPv5 server can ask for): exponent = the request, timer not earlier than 1.01 x min(interval, 2^31 s)", timeout=600),
         H(NH, "c10", "c10_filter", "one clock-filter update keeps the desired interval within [min,max] and moves it by at most one step (or back to min); poll score stays inside the hysteresis band", timeout=600),
         H(NH, "c10", "c10_server_req", "NTPv5 response (hdr+draft id, all header bytes symbolic except leap/version/mode/flags): server-requested minimum becomes max(old, requested); never lowered by any datagram", timeout=600),
     ],
